@@ -16,6 +16,10 @@
 //	   the callback must have run inside (the position is really reached — non-triviality guard).
 //
 // A and B are rendered twice on the same engine (nothing sticks between renders).
+//
+// The function form is also written behind a receiver (_self.G(…), nothing.G(…), rv.G(…), lm.G(…)),
+// and a second family (runHist) changes the policy between renders on one engine: what an earlier
+// render was allowed to do must not survive the policy forbidding it, and the other way round.
 package main
 
 import (
@@ -87,10 +91,36 @@ var positions = []position{
 	{name: "dead-for", snippet: "{% for i in [] %}{{ @H }}{% endfor %}d", out: "d", live: "dead"},
 }
 
-// fill puts a filter or function named `name` into the hole. fn selects the function form.
-func fill(p position, fn bool, name string) string {
+// A receiver turns the function form name(...) into the call form recv.name(...). Whether such a
+// call (with no macro of that name in the receiver or in scope) invokes the engine function `name` is
+// decided per case by the control run; when it does, it is a function invocation like any other and
+// the policy governs it.
+type receiver struct {
+	name    string
+	prelude string // put in front of the position's snippet (literals only)
+	expr    string
+}
+
+var receivers = []receiver{
+	{name: "none"},
+	{name: "_self", expr: "_self"},
+	{name: "undefined-variable", expr: "nothing"},
+	{name: "string-variable", prelude: "{% set rv = 'z' %}", expr: "rv"},
+	{name: "hash-variable", prelude: "{% set rh = {'a': 1} %}", expr: "rh"},
+	{name: "module-without-that-macro", prelude: "{% import 'modr' as lm %}", expr: "lm"},
+}
+
+const receiverModule = "{% macro other() %}x{% endmacro %}" // template 'modr'
+
+// fill puts a filter or function named `name` into the hole. fn selects the function form, recv
+// (function form only) the receiver the call is written behind.
+func fill(p position, fn bool, recv int, name string) string {
 	s := p.snippet
 	if fn {
+		if recv > 0 {
+			name = receivers[recv].expr + "." + name
+			s = receivers[recv].prelude + s
+		}
 		s = strings.ReplaceAll(s, "@H1", name+"('f')")
 		s = strings.ReplaceAll(s, "@H", name+"('v')")
 		s = strings.ReplaceAll(s, "@L", name+"(['v', 'w'])")
@@ -288,6 +318,7 @@ var forbiddenFunctions = []string{"G", "max"}
 type cas struct {
 	pos      int
 	fn       bool // function form
+	recv     int  // function form only: index into receivers (0 = plain call)
 	builtin  int  // index into forbiddenFilters / forbiddenFunctions
 	path     []int
 	policy   int
@@ -299,11 +330,18 @@ func (c cas) key() string {
 	if c.fn {
 		f = "fn"
 	}
-	ps := make([]string, len(c.path))
-	for i, r := range c.path {
+	if c.recv > 0 {
+		f = fmt.Sprintf("fn.x%d.", c.recv)
+	}
+	return fmt.Sprintf("%s/%s%d/r%s/P%d/b%d", positions[c.pos].name, f, c.builtin, pathKey(c.path), c.policy, c.boundary)
+}
+
+func pathKey(path []int) string {
+	ps := make([]string, len(path))
+	for i, r := range path {
 		ps[i] = fmt.Sprint(r)
 	}
-	return fmt.Sprintf("%s/%s%d/r%s/P%d/b%d", positions[c.pos].name, f, c.builtin, strings.Join(ps, "."), c.policy, c.boundary)
+	return strings.Join(ps, ".")
 }
 
 type counters struct{ inside, outside int }
@@ -363,6 +401,21 @@ func describe(tmpls map[string]string) string {
 	return b.String()
 }
 
+// buildProgram returns the templates of one program (main = the includer with the sandboxed include,
+// plain = the same without the word sandboxed) and the text main renders when nothing is refused.
+func buildProgram(pos position, fn bool, recv int, path []int, boundary int, ffl, ffn, name string) (map[string]string, string) {
+	sb, tmpls, out, ok := compose(path, pos, fill(pos, fn, recv, name))
+	if !ok {
+		panic("compose: invalid path reached buildProgram")
+	}
+	tmpls["sb"] = sb
+	tmpls["leaf"] = "L{{ x }}"
+	tmpls["modr"] = receiverModule
+	tmpls["main"] = "{{ 'o'|" + ffl + " }}{{ " + ffn + "('o') }}[" + boundaries[boundary] + "]{{ 'o'|" + ffl + " }}{{ " + ffn + "('o') }}"
+	tmpls["plain"] = strings.Replace(tmpls["main"], " sandboxed", "", 1) // the same program without the sandbox
+	return tmpls, "oo[" + out + "]oo"
+}
+
 func runCase(c cas) *vlib.Outcome {
 	pos := positions[c.pos]
 	ffl, ffn := forbiddenFilters[c.builtin], forbiddenFunctions[c.builtin]
@@ -379,18 +432,14 @@ func runCase(c cas) *vlib.Outcome {
 			live = "open"
 		}
 	}
-	label := fmt.Sprintf("position %s (%s form, forbidden name %s), route [%s], policy %s", pos.name, map[bool]string{false: "filter", true: "function"}[c.fn], forbidden, strings.Join(routeNames, " > "), policyLabel[c.policy])
+	formLabel := map[bool]string{false: "filter", true: "function"}[c.fn] + " form"
+	if c.recv > 0 {
+		formLabel = "function form behind the receiver " + receivers[c.recv].name + " (" + receivers[c.recv].expr + "." + forbidden + "(…))"
+	}
+	label := fmt.Sprintf("position %s (%s, forbidden name %s), route [%s], policy %s", pos.name, formLabel, forbidden, strings.Join(routeNames, " > "), policyLabel[c.policy])
 
 	build := func(name string) (map[string]string, string) {
-		sb, tmpls, out, ok := compose(c.path, pos, fill(pos, c.fn, name))
-		if !ok {
-			panic("compose: invalid path reached runCase")
-		}
-		tmpls["sb"] = sb
-		tmpls["leaf"] = "L{{ x }}"
-		tmpls["main"] = "{{ 'o'|" + ffl + " }}{{ " + ffn + "('o') }}[" + boundaries[c.boundary] + "]{{ 'o'|" + ffl + " }}{{ " + ffn + "('o') }}"
-		tmpls["plain"] = strings.Replace(tmpls["main"], " sandboxed", "", 1) // the same program without the sandbox
-		return tmpls, "oo[" + out + "]oo"
+		return buildProgram(pos, c.fn, c.recv, c.path, c.boundary, ffl, ffn, name)
 	}
 	fail := func(run string, tmpls map[string]string, format string, args ...interface{}) *vlib.Outcome {
 		o.Violation = label + ", " + run + ": " + fmt.Sprintf(format, args...) + describe(tmpls)
@@ -411,10 +460,16 @@ func runCase(c cas) *vlib.Outcome {
 		return fail("control run (allow-all policy)", tmplsF, "%v", err)
 	}
 	out, err := render(u)
+	reached := u.fl.inside+u.fn.inside > 0
+	if c.recv > 0 && live != "dead" && !reached {
+		// the statement does not say that recv.name(…) is a call of the function `name`: where the engine
+		// does not take it for one even with everything allowed, there is nothing to confine
+		o.Class = "receiver-form-is-not-a-function-call"
+		return o
+	}
 	if err != nil || out != want {
 		return fail("control run (allow-all policy)", tmplsF, "got %q, %v; want %q", out, err, want)
 	}
-	reached := u.fl.inside+u.fn.inside > 0
 	if live == "live" && !reached {
 		return fail("control run (allow-all policy)", tmplsF, "the forbidden callback was not invoked from inside, so the position is not reached (harness error)")
 	}
@@ -484,6 +539,9 @@ func runCase(c cas) *vlib.Outcome {
 		}
 	}
 	o.Class = live + "/" + policyLabel[c.policy] + "/" + class
+	if c.recv > 0 {
+		o.Class = "receiver/" + o.Class
+	}
 
 	// B. the twin: an allowed name in the same position keeps working, and so does the includer afterwards
 	if c.policy != polDeny {
@@ -506,6 +564,167 @@ func runCase(c cas) *vlib.Outcome {
 	return o
 }
 
+// ---- history family: the policy changes between renders on ONE engine
+
+// switchPolicy is a stateful hand-written policy: an allow-list plus extra names that are allowed only
+// while `on` is set.
+type switchPolicy struct {
+	base  *queryPolicy
+	extra map[string]bool
+	on    bool
+}
+
+func (p *switchPolicy) IsFunctionAllowed(n string) bool {
+	return p.base.IsFunctionAllowed(n) || (p.on && p.extra["fn:"+n])
+}
+func (p *switchPolicy) IsFilterAllowed(n string) bool {
+	return p.base.IsFilterAllowed(n) || (p.on && p.extra["fl:"+n])
+}
+func (p *switchPolicy) IsTagAllowed(string) bool { return true }
+
+const (
+	mechInPlace  = iota // the installed *twig.DefaultSecurityPolicy's maps are edited in place
+	mechReplace         // EnableSandbox(another policy object)
+	mechStateful        // a hand-written policy object that changes its answers
+	nMechs
+)
+
+var mechLabel = [nMechs]string{"in-place edit of the installed DefaultSecurityPolicy maps", "EnableSandbox(another policy)", "stateful hand-written policy"}
+
+// orders: the sequence of policy states of the successive sandboxed renders (A = the name is allowed, F = forbidden)
+var orders = []string{"AFAF", "FAF"}
+
+type hcas struct {
+	pos     int
+	fn      bool
+	builtin int
+	path    []int
+	mech    int
+	order   int
+}
+
+func (c hcas) key() string {
+	f := "fl"
+	if c.fn {
+		f = "fn"
+	}
+	return fmt.Sprintf("hist/%s/%s%d/r%s/m%d/o%d", positions[c.pos].name, f, c.builtin, pathKey(c.path), c.mech, c.order)
+}
+
+func runHist(c hcas) *vlib.Outcome {
+	pos := positions[c.pos]
+	ffl, ffn := forbiddenFilters[c.builtin], forbiddenFunctions[c.builtin]
+	name := ffl
+	if c.fn {
+		name = ffn
+	}
+	o := &vlib.Outcome{Counters: map[string]int64{}}
+	routeNames := make([]string, len(c.path))
+	live := pos.live
+	for i, r := range c.path {
+		routeNames[i] = routes[r].name
+		if routes[r].open && live == "live" {
+			live = "open"
+		}
+	}
+	label := fmt.Sprintf("policy history %s by %s: position %s (%s form, name %s), route [%s]", orders[c.order], mechLabel[c.mech], pos.name, map[bool]string{false: "filter", true: "function"}[c.fn], name, strings.Join(routeNames, " > "))
+	tmpls, want := buildProgram(pos, c.fn, 0, c.path, 0, ffl, ffn, name)
+	fail := func(run string, format string, args ...interface{}) *vlib.Outcome {
+		o.Violation = label + ", " + run + ": " + fmt.Sprintf(format, args...) + describe(tmpls)
+		o.Detail = map[string]interface{}{"templates": tmpls, "run": run, "history": orders[c.order], "mechanism": mechLabel[c.mech]}
+		return o
+	}
+
+	// the two policy states; `set` makes the engine's policy the one of the given state
+	var u *engineUnderTest
+	var set func(allow bool)
+	var initial twig.SecurityPolicy
+	defaultWith := func(allow bool) *twig.DefaultSecurityPolicy {
+		p, _ := makePolicy(polDefault, ffl, ffn)
+		dp := p.(*twig.DefaultSecurityPolicy)
+		if allow {
+			dp.AllowedFilters[ffl], dp.AllowedFunctions[ffn] = true, true
+		}
+		return dp
+	}
+	switch c.mech {
+	case mechInPlace:
+		dp := defaultWith(false)
+		initial = dp
+		set = func(allow bool) {
+			if allow {
+				dp.AllowedFilters[ffl], dp.AllowedFunctions[ffn] = true, true
+			} else {
+				delete(dp.AllowedFilters, ffl)
+				delete(dp.AllowedFunctions, ffn)
+			}
+		}
+	case mechReplace:
+		initial = defaultWith(false)
+		set = func(allow bool) { u.e.EnableSandbox(defaultWith(allow)) }
+	case mechStateful:
+		_, qp := makePolicy(polQuery, ffl, ffn)
+		sp := &switchPolicy{base: qp, extra: map[string]bool{"fl:" + ffl: true, "fn:" + ffn: true}}
+		initial = sp
+		set = func(allow bool) { sp.on = allow }
+	}
+	u, err := newEngine(initial, nil, ffl, ffn, tmpls)
+	if err != nil {
+		return fail("setup", "%v", err)
+	}
+
+	results := ""
+	for i, st := range orders[c.order] {
+		allow := st == 'A'
+		set(allow)
+		run := fmt.Sprintf("sandboxed render %d of %s (the policy now %s %s)", i+1, orders[c.order], map[bool]string{true: "allows", false: "forbids"}[allow], name)
+		o.Counters["renders"]++
+		u.fl, u.fn = counters{}, counters{}
+		out, err := u.e.Render("main", map[string]interface{}{"w": 0})
+		inside := u.fl.inside + u.fn.inside
+		if allow {
+			// what the policy allows keeps working
+			if err != nil || out != want {
+				return fail(run, "got %q, %v; want %q", out, err, want)
+			}
+			if (live == "live" && inside == 0) || (live == "dead" && inside > 0) || u.fl.outside != 2 || u.fn.outside != 2 {
+				return fail(run, "callback invocations: %d inside (position is %s), %d/%d outside, want 2/2", inside, live, u.fl.outside, u.fn.outside)
+			}
+			if inside > 0 {
+				o.Nontrivial = true
+			}
+			results += "a"
+			continue
+		}
+		if inside > 0 {
+			return fail(run, "the forbidden %s ran inside the sandbox (%d filter / %d function invocations); render returned %q, %v", name, u.fl.inside, u.fn.inside, out, err)
+		}
+		var sv *twig.SecurityViolation
+		switch {
+		case err != nil && !errors.As(err, &sv):
+			return fail(run, "the render failed with an error that is not a security violation: %v", err)
+		case err == nil && live == "live":
+			return fail(run, "the render succeeded (%q) although the forbidden %s stands in an evaluated position", out, name)
+		case err == nil && out != want:
+			return fail(run, "got %q, want %q", out, want)
+		}
+		wantOutside := 1
+		if err == nil {
+			wantOutside = 2
+		}
+		if u.fl.outside != wantOutside || u.fn.outside != wantOutside {
+			return fail(run, "the including template's own calls: filter ran %d times, function %d times, want %d each (render returned %q, %v)", u.fl.outside, u.fn.outside, wantOutside, out, err)
+		}
+		if err == nil {
+			results += "s"
+		} else {
+			results += "v"
+		}
+	}
+	o.Class = fmt.Sprintf("history/%s/m%d/%s", live, c.mech, results)
+	return o
+}
+
 // ---- enumeration
 
 func paths(depth int) [][]int {
@@ -525,22 +744,27 @@ func paths(depth int) [][]int {
 }
 
 func enumerate(t *vlib.T) {
-	maxDepth := 2
+	maxDepth, histDepth := 2, 1
 	if t.Thorough() {
-		maxDepth = 3
+		maxDepth, histDepth = 3, 2
 	}
 	for depth := 0; depth <= maxDepth; depth++ {
-		for _, path := range paths(depth) {
+		ps := paths(depth)
+		for _, path := range ps {
 			for pi, pos := range positions {
 				if _, _, _, ok := compose(path, pos, ""); !ok {
 					continue
 				}
-				for _, fn := range []bool{false, true} {
+				for form := -1; form < len(receivers); form++ { // -1 filter form, 0 plain call, 1… receiver-style calls
+					fn, recv := form >= 0, 0
+					if fn {
+						recv = form
+					}
 					if fn && pos.form == "filter" {
 						continue
 					}
 					for builtin := range forbiddenFilters {
-						if depth == 3 && builtin == 1 {
+						if depth == 3 && (builtin == 1 || recv > 1) {
 							continue
 						}
 						for policy := 0; policy < nPolicies; policy++ {
@@ -551,8 +775,35 @@ func enumerate(t *vlib.T) {
 								if t.Stopped() {
 									return
 								}
-								c := cas{pos: pi, fn: fn, builtin: builtin, path: path, policy: policy, boundary: b}
+								c := cas{pos: pi, fn: fn, recv: recv, builtin: builtin, path: path, policy: policy, boundary: b}
 								t.Case(c.key(), func() *vlib.Outcome { return runCase(c) })
+							}
+						}
+					}
+				}
+			}
+		}
+		if depth > histDepth {
+			continue
+		}
+		// the history family at the same depth: the policy changes between renders on one engine
+		for _, path := range ps {
+			for pi, pos := range positions {
+				if _, _, _, ok := compose(path, pos, ""); !ok {
+					continue
+				}
+				for _, fn := range []bool{false, true} {
+					if fn && pos.form == "filter" {
+						continue
+					}
+					for builtin := range forbiddenFilters {
+						for mech := 0; mech < nMechs; mech++ {
+							for order := range orders {
+								if t.Stopped() {
+									return
+								}
+								c := hcas{pos: pi, fn: fn, builtin: builtin, path: path, mech: mech, order: order}
+								t.Case(c.key(), func() *vlib.Outcome { return runHist(c) })
 							}
 						}
 					}
@@ -566,14 +817,18 @@ func main() {
 	vlib.Main(vlib.Spec{
 		ID:    "C06",
 		Level: "exploration",
-		Rule: "every program of the grid position-of-the-forbidden-name (39, filter and function form) x route below the sandbox boundary (all expressible compositions of 16 routes up to depth 2 quick / 3 thorough) " +
+		Rule: "every program of the grid position-of-the-forbidden-name (39, filter and function form, the function form also written behind 5 receivers: _self, an undefined variable, a string variable, a hash variable, an imported module without that macro) x route below the sandbox boundary (all expressible compositions of 16 routes up to depth 2 quick / 3 thorough) " +
 			"x policy (default+needed, hand-written counting allow-list, deny-all) x boundary tag form x forbidden name (custom, built-in) is rendered with instrumented callbacks; " +
-			"a case is non-trivial when the control run (same program, everything allowed) invokes the forbidden callback from inside the sandboxed include, i.e. the position is really reached",
+			"a case is non-trivial when the control run (same program, everything allowed) invokes the forbidden callback from inside the sandboxed include, i.e. the position is really reached. " +
+			"History family (keys hist/…): on ONE engine the policy alternates between allowing and forbidding the name (orders AFAF and FAF) by in-place edit of the installed DefaultSecurityPolicy maps, by EnableSandbox(another policy) and by a stateful hand-written policy, " +
+			"over every position x form x route composition up to depth 1 quick / 2 thorough; non-trivial when a render in the allowing state invokes the callback from inside",
 		Assumptions: []string{
 			"whether calling a macro or parent() is a function call in the sense of the policy is not fixed by the statement: those names are always on the allow-lists (except under deny-all, where only 'never invoked' and 'errors are security violations' are demanded)",
 			"macro default expressions: whether they are evaluated is not fixed; only 'never invoked' and 'errors are security violations' are demanded there",
 			"unevaluated positions (dead branches): static rejection and silent success are both accepted; the callback must not run and a successful render must equal the expected text",
 			"tags are not part of this property (IsTagAllowed always answers true in the hand-written policies)",
+			"receiver-style calls recv.name(…): the statement does not say they are calls of the function `name`; the control run decides per case (where it does not invoke the callback the case is recorded as trivial and nothing is demanded)",
+			"'the engine's security policy' is read as the policy in force when the render happens: the object last passed to EnableSandbox with the answers it gives during that render",
 		},
 		QuickDeadline: 100, ThoroughDeadline: 840,
 		Run: enumerate,
